@@ -13,7 +13,7 @@ use std::collections::BTreeMap;
 pub fn families() -> Vec<Family> {
     vec![
         Family::new("c18_seq", "C18", "sequential insert/remove/alias/lookup/broadcast histories vs. model", c18_seq)
-            .runs(20_000, 1_000_000)
+            .runs(200_000, 12_000_000)
             .deadlock(OnDeadlock::HarnessError),
         Family::new(
             "c18_conc",
@@ -21,7 +21,7 @@ pub fn families() -> Vec<Family> {
             "2-4 simulated threads x 1-4 ops on one PeerRegistry, linearizability vs. model",
             c18_conc,
         )
-        .runs(12_000, 600_000)
+        .runs(100_000, 6_000_000)
         .deadlock(OnDeadlock::HarnessError),
     ]
 }
